@@ -71,6 +71,8 @@ func init() {
 				firstNAT = natKinds[vs.Choose("pnat", nNat)]
 				clientNAT = []string{"unknown", "unrestricted", "restricted"}[vs.Choose("cnat", 3)]
 			}
+			// the first client may name a well-formed fingerprint that is not in the bridge list (it is refused)
+			absentFirst := x.Cfg["fp"] == "2" && vs.Choose("absentfp", 2) == 1
 			w := newWorld()
 			x.User = w
 			for i, p := range pcs {
@@ -83,8 +85,12 @@ func init() {
 					pr.sid = w.proxies[0].sid
 				}
 			}
-			for _, a := range carr {
-				w.addClient(clientNAT, "", a, viaIPC)
+			for i, a := range carr {
+				fp := ""
+				if i == 0 && absentFirst {
+					fp = fpAbsent
+				}
+				w.addClient(clientNAT, fp, a, viaIPC)
 			}
 			var sb strings.Builder
 			for _, p := range w.proxies {
